@@ -4,7 +4,8 @@
 From Coq Require Import ZArith List Bool Arith Lia.
 From SP Require Import Design.Flat Design.Layout Design.Sem Comb.CombModel Comb.CombSpec Random.Enum Random.Frag
   Random.FragSem Random.RunLemmas Random.Frag0Enum Random.Frag0Decode Random.Frag0Sem Random.Frag0Valid
-  Random.Frag0Keys Random.Frag0Inj.
+  Random.Frag0Keys Random.Frag0Inj Random.Frag0Complete.
+From SP Require Comb.PermProofs.
 Import ListNotations.
 Open Scope nat_scope.
 
@@ -96,6 +97,76 @@ Theorem f0_keys_count :
 Proof.
   intros He Hc. split; [apply (f0_make_enumerator fb HF Hq)|].
   rewrite f0_keys_of, He, Hc. cbn [orb]. apply (f0_keys_length fb HF Hq).
+Qed.
+
+
+Lemma prodZl_pos l : (forall x, In x l -> (0 < x)%Z) -> (0 < prodZl l)%Z.
+Proof.
+  unfold prodZl. intros H. assert (G : forall acc, (0 < acc)%Z -> (0 < fold_left Z.mul l acc)%Z).
+  { induction l as [|x t IH]; intros acc Ha; cbn; [exact Ha|]. apply IH.
+    - intros y Hy. apply H. right. exact Hy.
+    - apply Z.mul_pos_pos; [exact Ha | apply H; left; reflexivity]. }
+  apply G. lia.
+Qed.
+
+Lemma f0_count_pos : (0 < en_count en)%Z.
+Proof.
+  cbn [en_count f0_enum]. apply Z.mul_pos_pos.
+  - unfold f0_perms. pose proof (PermProofs.ffact_fact (f0_q fb) (f0_q fb) (le_n _)) as E.
+    rewrite Nat.sub_diag in E. cbn [fact_nat] in E. pose proof (fact_nat_pos (f0_q fb)). lia.
+  - apply prodZl_pos. intros x Hx. unfold f0_inds in Hx. apply in_map_iff in Hx. destruct Hx as [g [E Hg]]. subst x.
+    apply Z.pow_pos_nonneg; [|lia]. apply (ubi_In fb HF Hq) in Hg. destruct Hg as [Hg _].
+    pose proof (f0_nonempty fb (f0_unpack fb HF) g Hg). lia.
+Qed.
+
+Lemma f0_keys_of_full : fl_errors_fail fb = false -> keys_of fb = f0_keys fb.
+Proof.
+  intros He. rewrite f0_keys_of, He. replace (en_count en =? 0)%Z with false; [reflexivity|].
+  symmetry. apply Z.eqb_neq. pose proof f0_count_pos. lia.
+Qed.
+
+(** C05, completeness on F0: every valid sequence is the candidate of a key
+    RandomGen can draw, and that candidate is accepted *)
+Theorem f0_accept_complete s :
+  fl_errors_fail fb = false -> valid_b (code_sem fb) s = true ->
+  exists k cand, In k (keys_of fb) /\ decode_key fb k = Some cand /\ accepts fb cand = true /\
+                 tseq_of_run fb cand = s.
+Proof.
+  intros He Hv. pose proof (the_key_ok fb HF Hq s Hv) as Hk.
+  destruct (f0_decode_key _ Hk) as [r [Hd Hrow]].
+  exists (the_key fb s), r. split; [rewrite (f0_keys_of_full He); apply (f0_keys_In fb HF Hq); exact Hk|].
+  split; [exact Hd|]. split; [apply f0_accepts|].
+  apply (nth_ext _ _ [] []).
+  - unfold tseq_of_run. rewrite map_length, seq_length. symmetry. apply (v_length fb HF Hq s Hv).
+  - intros g Hg. unfold tseq_of_run in Hg. rewrite map_length, seq_length in Hg.
+    rewrite tseq_nth by exact Hg. rewrite Hrow. apply (the_key_rows fb HF Hq s Hv g Hg).
+Qed.
+
+(** C06 on F0: the valid sequences are exactly the candidates of the keys, one
+    key each, [possible_keys] of them *)
+Definition cand_tseq (k : key) : tseq :=
+  match decode_key fb k with Some cand => tseq_of_run fb cand | None => [] end.
+
+Theorem f0_count_exact :
+  fl_errors_fail fb = false ->
+  make_enumerator fb = ROk en /\
+  NoDup (map cand_tseq (keys_of fb)) /\
+  (forall s, In s (map cand_tseq (keys_of fb)) <-> valid_b (code_sem fb) s = true) /\
+  Z.of_nat (length (map cand_tseq (keys_of fb))) = possible_keys fb en.
+Proof.
+  intros He. split; [apply (f0_make_enumerator fb HF Hq)|]. split; [|split].
+  - apply NoDup_map_inj_in; [|apply f0_keys_nodup].
+    intros k1 k2 H1 H2 E. unfold cand_tseq in E.
+    destruct (f0_decode_key k1 (f0_keys_of_ok k1 H1)) as [r1 [Hd1 _]].
+    destruct (f0_decode_key k2 (f0_keys_of_ok k2 H2)) as [r2 [Hd2 _]].
+    rewrite Hd1, Hd2 in E. apply (f0_cand_inj k1 k2 r1 r2 H1 H2 Hd1 Hd2 E).
+  - intros s. split.
+    + intros Hin. apply in_map_iff in Hin. destruct Hin as [k [E Hk]]. unfold cand_tseq in E.
+      destruct (f0_decode_key k (f0_keys_of_ok k Hk)) as [r [Hd _]]. rewrite Hd in E. subst s.
+      apply (f0_accept_sound k r Hk Hd (f0_accepts r)).
+    + intros Hv. destruct (f0_accept_complete s He Hv) as (k & cand & Hk & Hd & _ & E).
+      apply in_map_iff. exists k. split; [|exact Hk]. unfold cand_tseq. rewrite Hd. exact E.
+  - rewrite map_length. apply f0_keys_count; [exact He|]. apply Z.eqb_neq. pose proof f0_count_pos. lia.
 Qed.
 
 End F0T.
